@@ -235,6 +235,15 @@ def body_str(case):
     out.nontrivial = numeric and len(parts) >= 2 or (delim != "/" and len(parts) >= 2)
     out.label(f"delim:{delim}", "numeric-token" if numeric else "plain-tokens")
     out.sample = f"from_str({s!r}, {delim!r}) on {show(doc,200)}"
+    if len(s) % 2:
+        # the same text is first parsed under ANOTHER delimiter (what a string means depends on the delimiter given now)
+        for d2 in (".", "/", "|", "::"):
+            if d2 != delim:
+                try:
+                    ns.d.DataPath.from_str(s, delimiter=d2)
+                except Exception:
+                    pass
+        out.label("other-delimiters-first")
     try:
         parsed = ns.d.DataPath.from_str(s, delimiter=delim) if delim != "/" or len(toks) % 2 else ns.d.DataPath.from_str(s)
     except Exception as e:
@@ -346,6 +355,21 @@ def body_rule(case):
         return out
     check_rule_obj(out, parsed, rl, doc, spec, "rule")
     eq_both(out, parsed_j, parsed, "rule-equal", "from_json_like", f"Rule.from_json_like({show(spec,250)}) = {show(parsed_j,200)} but from_spec gives {show(parsed,200)}")
+    # the caller adds to the doc block of the rule it got (e.g. one more example): another rule parsed from the same
+    # spec - before or afterwards - keeps the doc block the spec describes
+    if isinstance(parsed.doc, dict) and not out.violations:
+        try:
+            for k_ in ("description", "examples"):
+                if isinstance(parsed.doc.get(k_), list):
+                    parsed.doc[k_].append("<added by the caller>")
+            later = ns.r.Rule.from_spec(copy.deepcopy(spec))
+            for which, other in (("parsed-before", parsed_j), ("parsed-afterwards", later)):
+                if (rl.doc is not None or other.doc) and not same_doc(other.doc, rl.doc):
+                    out.add("doc-normal-form", f"doc-normal-form|independent|{which}",
+                            f"after the caller appended to ANOTHER rule's doc block, the rule {which} from {show(spec.get('doc'),150)} has doc {other.doc!r}, expected {rl.doc!r}")
+                    break
+        except Exception as e:
+            out.exc("parse-rule-again", e)
     return out
 
 
